@@ -183,12 +183,38 @@ def gen_pipeline(rng: random.Random, kind: str, **over):
             cur = SF.differentiate(cur, order=1)
             steps.append(("differentiate", 1))
         return cur, {"domains": domains, "bases": bases, "steps": steps, "kind": kind}
+    if kind == "twin-mul":
+        # two models of ONE architecture with ONE leaf family (cycled over by the case index through
+        # `over["leaf"]`): every pair of layers met by a product rule has equal shapes, so a rule that
+        # reads the wrong operand's tensor cannot fail on a shape; optionally integrated afterwards
+        leaf = over.pop("leaf", None) or rng.choice(TWIN_LEAVES)
+        lk, cm = leaf
+        d = dict(structured=True, outputs=1, out_units=rng.choice([1, 2]), same_kind_all_vars=True)
+        if cm is not None:
+            d["cat_modes"] = (cm,)
+        d.update(over)
+        cfg = base_cfg(rng, (lk,), **d)
+        circuits, meta = gen.gen_twin_pair(rng, cfg, n=2)
+        if rng.random() < 0.5:
+            circuits = circuits[::-1]
+        domains = dict(meta["domains"])
+        ids = sorted(domains)
+        cur = SF.multiply(circuits[0], circuits[1])
+        steps.append(("multiply",))
+        if lk in INTEGRABLE and rng.random() < 0.5:
+            z = random_subset(rng, ids)
+            cur = SF.integrate(cur, Scope(z))
+            steps.append(("integrate", z))
+        return cur, {"domains": domains, "bases": list(circuits), "steps": steps, "kind": kind, "leaf": leaf}
     raise ValueError(kind)
 
 
+TWIN_LEAVES = [("cat", "probs_raw"), ("cat", "probs_softmax"), ("cat", "logits"), ("cat", "logits_lsm"),
+               ("embedding", None), ("gaussian", None), ("gaussian_lp", None), ("poly", None)]
+
 PIPE_KINDS = [
     "integrate", "evidence", "conjugate", "evi-int", "int-int", "conj-int", "concat",
-    "multiply", "square", "mul-int", "sq-int", "sq-conj-int", "mul3", "mul-evi", "diff", "mul-diff",
+    "multiply", "square", "mul-int", "sq-int", "sq-conj-int", "mul3", "mul-evi", "diff", "mul-diff", "twin-mul",
 ]
 
 
